@@ -298,9 +298,15 @@ class AssignBase(StatementBase):
         get_deps = self.get_dependency_mapper()
 
         def get_vars(expr):
-            return frozenset(dep.name for dep in get_deps(self.rhs))
+            return frozenset(dep.name for dep in get_deps(expr))
 
-        result = get_vars(self.rhs) | get_vars(self.lhs)
+        result = result | get_vars(self.rhs)
+
+        # The variables in a subscript of the left-hand side are read, too.
+        from pymbolic.primitives import Subscript
+        if isinstance(self.lhs, Subscript):
+            for index in self.lhs.index_tuple:
+                result = result | get_vars(index)
 
         return result
 
@@ -437,6 +443,18 @@ class Assign(Statement, AssignBase):
     @property
     def expression(self):
         return self.rhs
+
+    def get_read_variables(self):
+        result = super().get_read_variables()
+
+        # The loop bounds are read as well.
+        get_deps = self.get_dependency_mapper()
+        for _ident, start, end in self.loops:
+            for bound in (start, end):
+                result = result | frozenset(
+                        dep.name for dep in get_deps(bound))
+
+        return result
 
     def map_expressions(self, mapper, include_lhs=True):
         return (super()
